@@ -145,6 +145,20 @@ func init() {
 		skelTarget{Name: "C04.HookRun", File: "pkg/hook/hook.go", Recv: "Hook", Func: "Run",
 			Fields: []string{"Snapshots", "Objects", "BindingContext"},
 			Calls:  []string{"UpdateSnapshots", "ConvertBindingContextList", "prepareBindingContextJsonFile", "RunAndLogLines"}},
+		// Model/HookOutput.validOp and applyOp: which combinations the validation accepts and which branches
+		// apply an operation (sixth wave: accepted => applied)
+		skelTarget{Name: "C04.ValidateMetricOperation", File: "pkg/metric_storage/operation/operation.go", Recv: "", Func: "ValidateMetricOperation",
+			Fields: []string{"Action", "Group", "Name", "Value", "Buckets", "Set", "Add"},
+			Calls:  []string{"Append", "ErrorOrNil"}},
+		skelTarget{Name: "C04.applyGroupOperations", File: "pkg/metric_storage/metric_storage.go", Recv: "MetricStorage", Func: "applyGroupOperations",
+			Fields: []string{"Action", "Value", "Set", "Add", "Buckets"},
+			Calls:  []string{"ExpireGroupMetrics", "CounterAdd", "GaugeSet", "HistogramObserve"}},
+		skelTarget{Name: "C04.sendBatchV0", File: "pkg/metric_storage/metric_storage.go", Recv: "MetricStorage", Func: "sendBatchV0",
+			Fields: []string{"Action", "Value", "Set", "Add", "Buckets"},
+			Calls:  []string{"CounterAdd", "GaugeSet", "HistogramObserve", "Errorf"}},
+		skelTarget{Name: "C04.SendBatch", File: "pkg/metric_storage/metric_storage.go", Recv: "MetricStorage", Func: "SendBatch",
+			Fields: []string{"Group"},
+			Calls:  []string{"ValidateOperations", "applyGroupOperations", "sendBatchV0"}},
 	)
 }
 
